@@ -375,6 +375,10 @@ func (h *Handler) SaveIntegration(w http.ResponseWriter, r *http.Request) {
 		http.Error(w, err.Error(), http.StatusInternalServerError)
 		return
 	}
+	if err := ig.CheckSources(); err != nil {
+		http.Error(w, err.Error(), http.StatusBadRequest)
+		return
+	}
 	cj, err := json.Marshal(ig)
 	if err != nil {
 		slog.ErrorContext(ctx, "encoding integration", "error", err)
